@@ -230,6 +230,16 @@ func eval(c Case, sandbox string) hx.Result {
 			got[len(got)-1] = filepath.Join(base, "written-into-the-callers-copy")
 		}
 		before := snapshot(sandbox)
+		if !strings.ContainsRune(name, 0) && len(filepath.Base(target)) <= 255 && !c.Decoys {
+			// nothing was ever written under the name (the last directory may not even exist): removing
+			// it succeeds and changes nothing
+			if err := cache.RemoveSpec(name); err != nil {
+				return fail("remove-of-a-name-never-written-fails", "RemoveSpec of a name that was never written failed: "+err.Error(), nil, err.Error())
+			}
+			if cr, ch, de := diff(before, snapshot(sandbox)); len(cr)+len(ch)+len(de) != 0 {
+				return fail("remove-of-a-name-never-written-changed-something", fmt.Sprint(cr, ch, de), nil, nil)
+			}
+		}
 		werr := cache.WriteSpec(raw, name)
 		after := snapshot(sandbox)
 		created, changed, deleted := diff(before, after)
@@ -441,7 +451,7 @@ func main() {
 	}
 	r.Extra["long_file_names"] = nLong
 	r.Rule = fmt.Sprintf("%d Spec kinds (dots in vendor/class, classes ending in .json/.yaml, one-letter) x transient ids = every string of 0..%d tokens over %q (plus the non-transient name) x %d directory configurations (1-3 directories, last present / missing / nested missing / non-clean / repeated) x decoys (same name in lower directories, siblings, old file at the target, neighbours named after the target: other extension, no extension, .bak/.tmp/hidden) x both name APIs, and (non-transient names and ids of <=1 byte) on a cache with a past: created for other directories, used to write and remove a Spec there, then reconfigured; "+
-		"sequence per case: WriteSpec, Refresh+GetDevice, WriteSpec again, RemoveSpec, RemoveSpec again, WriteSpec of the first Spec again (three times: name free, file replaced by someone else, name taken by a symbolic link to a file kept elsewhere), RemoveSpec, with a snapshot (paths, types, content hashes) of a sandbox three levels above the Spec directories before and after every step. "+
+		"sequence per case: RemoveSpec of the name never written (cases without decoys), WriteSpec, Refresh+GetDevice, WriteSpec again, RemoveSpec, RemoveSpec again, WriteSpec of the first Spec again (three times: name free, file replaced by someone else, name taken by a symbolic link to a file kept elsewhere), RemoveSpec, with a snapshot (paths, types, content hashes) of a sandbox three levels above the Spec directories before and after every step. "+
 		"Oracle: name is one path component; exactly one file created/replaced at the model path with the model encoding; top precedence after refresh; remove deletes exactly that file; removing an absent name succeeds. Distinct by construction; all non-trivial",
 		len(kindsUnderTest), maxTok, idTokens, len(dirConfigs))
 	r.Assumptions = []string{"a name containing NUL cannot be stored by any file system: there the write must fail and must not touch any file"}
